@@ -3,6 +3,7 @@ C04 — Parsed record header equals the header that was written.
 -/
 import LA.Proofs.AuparseHeader
 import LA.Props.C20
+import LA.Proofs.Trim
 
 namespace LA.Auparse
 open LA LA.MsgType
@@ -145,18 +146,10 @@ theorem typeName_no_m (t : Nat) : (109 : Nat) ∉ typeName t := by
     have := List.all_eq_true.mp cert (t, n) hm
     simpa using this
 
-/-- the full round-trip statement of the property. -/
-def C04_roundtrip_full : Prop :=
-  ∀ (t sec ms seq : Nat) (body : Bytes), t < 65536 → sec < 2 ^ 34 → ms < 1000 → seq < 2 ^ 32 →
-    parseLogLine (ofString "type=" ++ typeName t ++ ofString " msg=" ++ (writtenHeader sec ms seq ++ ofString ": " ++ body)) =
-      Res.ok { typ := t, sec := sec, nsec := ((ms * 1000000 : Nat) : Int), seq := seq,
-               raw := trimSpace (writtenHeader sec ms seq ++ ofString ": " ++ body),
-               offset := 1 }
-
 /-- Round trip, for every record type (named or UNKNOWN[n]), time stamp, sequence and body,
 under the hypothesis `hk` that trimming white space from the text after 'msg=' leaves the header
-in place (`C04_trim_keeps_header` discharges it whenever the text ends in a non-space ASCII byte;
-bodies ending in (Unicode) white space are covered by the correspondence runs only).
+in place (`trim_keeps_written_header` discharges it for every body; `C04_roundtrip` below is the
+statement without it).
 RecordType, Timestamp, Sequence are what was written and RawData is the trimmed text. -/
 theorem C04_roundtrip_partial (t sec ms seq : Nat) (body rest' : Bytes) (ht : t < 65536) (hs : sec < 2 ^ 34)
     (hm : ms < 1000) (hq : seq < 2 ^ 32)
@@ -172,6 +165,35 @@ theorem C04_roundtrip_partial (t sec ms seq : Nat) (body rest' : Bytes) (ht : t 
   have hl : 1 ≤ (writtenHeader sec ms seq).length := by simp [writtenHeader]; omega
   rw [slice_ok (by simp; omega)]
   exact ⟨_, rfl⟩
+
+/-- TrimSpace never eats into the written header: whatever the body is (any bytes, including
+Unicode white space and invalid UTF-8), the trimmed text after 'msg=' still starts with the
+complete header. -/
+theorem trim_keeps_written_header (sec ms seq : Nat) (tail : Bytes) :
+    ∃ rest', trimSpace (writtenHeader sec ms seq ++ tail) = writtenHeader sec ms seq ++ rest' := by
+  have e : writtenHeader sec ms seq ++ tail =
+      97 :: ((ofString "udit" ++ 40 :: (dec sec ++ 46 :: (pad3 ms ++ 58 :: dec seq))) ++ 41 :: tail) := by
+    simp [writtenHeader, ofString]
+  obtain ⟨t', ht'⟩ := trimSpace_keeps_prefix 97 (ofString "udit" ++ 40 :: (dec sec ++ 46 :: (pad3 ms ++ 58 :: dec seq))) 41 tail
+    (by decide) (by decide) (by decide) (by decide)
+  refine ⟨t', ?_⟩
+  rw [e, ht']
+  simp [writtenHeader, ofString]
+
+/-- The property's round trip with no side condition: for every record type (named or
+UNKNOWN[n]), time stamp, sequence number and every body, the line
+'type=T msg=audit(S.mmm:N): body' parses to RecordType T, Timestamp S.mmm, Sequence N and
+RawData = the trimmed text after 'msg=', which still begins with the written header. -/
+theorem C04_roundtrip (t sec ms seq : Nat) (body : Bytes) (ht : t < 65536) (hs : sec < 2 ^ 34)
+    (hm : ms < 1000) (hq : seq < 2 ^ 32) :
+    ∃ off rest', trimSpace (writtenHeader sec ms seq ++ ofString ": " ++ body) = writtenHeader sec ms seq ++ rest' ∧
+      parseLogLine (ofString "type=" ++ typeName t ++ ofString " msg=" ++ (writtenHeader sec ms seq ++ ofString ": " ++ body)) =
+      Res.ok { typ := t, sec := sec, nsec := ((ms * 1000000 : Nat) : Int), seq := seq,
+               raw := trimSpace (writtenHeader sec ms seq ++ ofString ": " ++ body), offset := off } := by
+  obtain ⟨rest', hk⟩ := trim_keeps_written_header sec ms seq (ofString ": " ++ body)
+  rw [← List.append_assoc] at hk
+  obtain ⟨off, h⟩ := C04_roundtrip_partial t sec ms seq body rest' ht hs hm hq hk
+  exact ⟨off, rest', hk, h⟩
 
 /-- text that starts with a non-space ASCII byte and ends with one is left alone by TrimSpace. -/
 theorem C04_trim_keeps_header (a : Nat) (mid : Bytes) (z : Nat) (ha : a < 128) (ha' : isAsciiSpace a = false)
